@@ -60,6 +60,10 @@ func c20Health(t time.Duration, disabled bool, interval time.Duration, n int, ro
 func c20Run(r *core.Run) {
 	t := r.T
 	ntok := 1 + t.Choose(3, "ntokens")
+	// "any number of tokens" includes none: a server whose keys carry no roles
+	// serves no token (directory-only front end); its check passes are vacuous,
+	// complete at once and cannot fail, so it is healthy unless disabled
+	noTokens := t.Chance(1, 12, "no-served-tokens")
 	interval := time.Duration(core.Pick(t, "interval", 5, 1, 60)) * time.Second
 	timeout := time.Duration(core.Pick(t, "timeout", 3, 1, 200)) * time.Second
 	nfail := core.Pick(t, "failures", 3, 1, 2, 5)
@@ -129,7 +133,11 @@ func c20Run(r *core.Run) {
 		for i := 0; i < ntok; i++ {
 			name := fmt.Sprintf("tok%d", i)
 			cfg.Tokens[name] = &config.TokenConfig{Type: world.SimTokenType}
-			cfg.Keys[fmt.Sprintf("key%d", i)] = &config.KeyConfig{Token: name, Roles: []string{"r1"}}
+			kc := &config.KeyConfig{Token: name, Roles: []string{"r1"}}
+			if noTokens {
+				kc.Roles = nil
+			}
+			cfg.Keys[fmt.Sprintf("key%d", i)] = kc
 		}
 		must(cfg.Normalize(""))
 		world.Bind(w)
@@ -218,6 +226,32 @@ func c20Run(r *core.Run) {
 		if wantOK && o.Delay*time.Duration(ntok) > timeout {
 			r.Probe("slow-round-sum-exceeds-timeout")
 		}
+	}
+	if noTokens {
+		r.Evals += len(samples)
+		if len(pings) > 0 {
+			r.Failf("C20.round-shape", "unserved-token-pinged", "a token that no key with roles refers to was pinged %d times", len(pings))
+		}
+		for _, s := range samples {
+			want, why := 200, "no-tokens"
+			if disabled {
+				want, why = 503, "disabled"
+			}
+			r.Sig(fmt.Sprintf("sample/%s/%d/n=%d/tok=0", why, want, nfail))
+			r.Probe("no-served-tokens")
+			if s.At != s.Asked {
+				r.Failf("C20.health-blocked", "waited", "GET /health asked at t=%v was only answered at t=%v (%d) on a server without tokens", s.Asked, s.At, s.Status)
+			} else if s.Status != want {
+				r.Failf("C20.health-mismatch", fmt.Sprintf("want%d-%s", want, why),
+					"GET /health at t=%v returned %d on a server that serves no token (nothing to check, nothing that can fail or stall; disabled=%v): want %d; N=%d interval=%v", s.At, s.Status, disabled, want, nfail, interval)
+			}
+		}
+		for site, at := range w.Spinning {
+			if strings.Contains(site, "view_health.go") {
+				r.Failf("C20.close.spinning", "health-loop", "after server.Close() at t=%v the health-check loop at %s iterated more than %d times at virtual instant t=%v without blocking", closedAt, site, world.SpinLimit, at.Sub(w.Start))
+			}
+		}
+		return
 	}
 	var rounds []c20Round
 	for i := 0; i+ntok <= len(pings); i += ntok {
